@@ -495,7 +495,7 @@ impl M {
 
 #[derive(Clone, Debug)]
 pub enum Obs {
-	Send { idx: usize, op: Op, to_dead: bool },
+	Send { idx: usize, op: Op, to_dead: bool, polled: bool },
 	Exited { id: usize },
 	Time { t: u64 },
 	Close,
@@ -552,11 +552,32 @@ impl Tracker {
 		self.steps += 1;
 		let before = self.states.clone();
 		match o {
-			Obs::Send { idx, op, to_dead } => {
+			Obs::Send { idx, op, to_dead, polled } => {
 				// the send lands on some state of the silent closure: the job may or may not
 				// have taken its silent turns yet
+				let mut cands = silent_closure_keep_pending(std::mem::take(&mut self.states));
+				if *polled {
+					// ... and, if the job task may have been polled since the previous send, it
+					// may be in the middle of a turn none of whose effects is visible yet (the
+					// documented semantics do not make a control's execution atomic: an await
+					// between taking the control and its first effect is legitimate)
+					let mut begun = vec![];
+					for c in &cands {
+						if !c.pending_out.is_empty() {
+							continue;
+						}
+						for t in c.enabled() {
+							let mut n = c.clone();
+							n.take(t);
+							if !n.pending_out.is_empty() {
+								begun.push(n);
+							}
+						}
+					}
+					cands.extend(begun);
+				}
 				let mut next = vec![];
-				for mut s in silent_closure_keep_pending(std::mem::take(&mut self.states)) {
+				for mut s in cands {
 					if *to_dead && !s.gone {
 						continue;
 					}
